@@ -12,6 +12,7 @@ func init() {
 	exclusiveActs["aka_mac"] = true // its back-to-back computations under changing keys must not interleave with another worker's
 	acts["aka_prf"] = actAkaPrf
 	acts["aka_new"] = actAkaNew
+	acts["aka_load"] = actAkaLoad
 	acts["aka_setattr"] = actAkaSetAttr
 	acts["aka_marshal"] = actAkaMarshal
 	acts["aka_calcmac"] = actAkaCalcMac
@@ -36,6 +37,18 @@ func actAkaNew(e *Env, a J) J {
 	p := &eap.EAP{Code: eap.EapCode(gi(a, "code")), Identifier: uint8(gi(a, "id")), EapTypeData: eap.NewEapAkaPrime(eap.EapAkaSubtype(gi(a, "sub")))}
 	e.objs["akaobj"] = p
 	return J{"attrs": akaState(p)}
+}
+
+// aka_load: the long-lived packet object comes out of the decoder (attributes in whatever order the wire had them)
+func actAkaLoad(e *Env, a J) J {
+	p := new(eap.EAP)
+	err := p.Unmarshal(layouts(gox(a, "wire"), false)[0])
+	o := errObs(err)
+	if err == nil {
+		e.objs["akaobj"] = p
+		o["attrs"] = akaState(p)
+	}
+	return o
 }
 
 func actAkaSetAttr(e *Env, a J) J {
